@@ -440,12 +440,15 @@ Inductive aev := AE (t item : int) (status : zi).
 Record acase := AC0 {
   a_retry : Z; a_cap : fl; a_rate : fl;
   a_evs : list (Z * Z * Z);
-  a_state : option (Z * fl)          (* failureCount, refillRate after item 1 *)
+  a_state : option (Z * fl);         (* failureCount, refillRate after item 1 *)
+  a_built : option (fl * fl)         (* capacity, idealRate of the bucket the archiver's manager made *)
 }.
-Inductive astate := ANone | ASt (fails : zi) (rate : fl).
+(* [a_cap], [a_rate] are the OPERATOR's values (config RateLimitCapacity / RateLimitRefillRate) *)
+Inductive astate := ANone | ASt (fails : zi) (rate : fl) | ASt2 (fails : zi) (rate cap ideal : fl).
 Definition AC (retry : zi) (c r : fl) (evs : list aev) (st : astate) : acase :=
   AC0 (zi_Z retry) c r (map (fun '(AE t i s) => (iz t, iz i, zi_Z s)) evs)
-      (match st with ANone => None | ASt f x => Some (zi_Z f, x) end).
+      (match st with ANone => None | ASt f x => Some (zi_Z f, x) | ASt2 f x _ _ => Some (zi_Z f, x) end)
+      (match st with ASt2 _ _ cp idl => Some (cp, idl) | _ => None end).
 
 Definition arch_bad (s : Z) : bool := (500 <=? s) || (s =? 408) || (s =? 425) || (s =? 429).
 
@@ -504,8 +507,32 @@ Definition amon_reported (c : acase) : bool :=
       (if existsb (fun s => 500 <=? s) ans then negb (Qle_bool (q_of (a_rate c)) (q_of x)) else true)
   end.
 
+(* 2: the limiter the archiver builds has the operator's capacity and rate *)
+Definition amon_built (c : acase) : bool :=
+  match a_built c with
+  | None => true
+  | Some (cp, idl) => Qeq_bool (q_of cp) (q_of (a_cap c)) && Qeq_bool (q_of idl) (q_of (a_rate c))
+  end.
+
+(* 3: window bound with the CONFIGURED capacity and rate, at the origin.  Every item passes through
+   Wait once before its first request, and the host's bucket did not exist before the case started
+   (time 0): when the n-th item's first request arrives at time t, n <= capacity + t * rate. *)
+Fixpoint first_arrivals (seen : list Z) (l : list (Z * Z * Z)) : list Z :=
+  match l with
+  | [] => []
+  | (t, i, _) :: r =>
+      if existsb (Z.eqb i) seen then first_arrivals seen r else t :: first_arrivals (i :: seen) r
+  end.
+Fixpoint burst_from (capq rq : Q) (n : Z) (l : list Z) : bool :=
+  match l with
+  | [] => true
+  | t :: r => Qle_bool (inject_Z (n + 1)) (capq + secs t * rq + AMBIG) && burst_from capq rq (n + 1) r
+  end.
+Definition amon_burst (c : acase) : bool :=
+  burst_from (q_of (a_cap c)) (q_of (a_rate c)) 0 (first_arrivals [] (a_evs c)).
+
 Definition adiffs (l : list acase) := bad_idx adiff_case l.
-Definition amons (l : list acase) := mon_idx [amon_penalty; amon_reported] l.
+Definition amons (l : list acase) := mon_idx [amon_penalty; amon_reported; amon_built; amon_burst] l.
 
 (* -------------------------------------------------------------------------------------
    Sweep stream (black box, real BucketManager with a SHORT cleanup period and a table far from
